@@ -1014,6 +1014,69 @@ def compare_case(ctx, name, sd, mres, root, els=None, gen=None):
     return on
 
 
+class _PastCompliance(Exception):
+    """raised by the stub that replaces the first reload of the script's save/reload stage"""
+
+
+def script_reports(path):
+    """`hed.scripts.script_util.validate_schema(path)` (the body of the validate_schemas script) up to the end of its
+    compliance stage: the report strings if it stopped there, None if it went on to the save/reload round trips (those
+    belong to C05; `from_string` inside script_util is replaced by a stub that raises, so nothing of them runs)"""
+    from hed.scripts import script_util
+
+    def stub(*a, **k):
+        raise _PastCompliance()
+    old = script_util.from_string
+    script_util.from_string = stub
+    try:
+        return script_util.validate_schema(path)
+    except _PastCompliance:
+        return None
+    finally:
+        script_util.from_string = old
+
+
+def script_route(ctx, name, root, els, seeds, answers, base_on, workdir):
+    """the validate_schemas route (anchor hed/scripts/script_util.py): the script must stop at its compliance stage with a
+    report exactly when check_compliance() with warnings on reports something other than the prerelease notice - for the
+    released schema and for one admissible seeded fault of each kind - and the report must name the fault's code"""
+    path = os.path.join(workdir, f"HED_c14_{name.replace('.', '_')}.xml")
+
+    def run(label, expect_codes):
+        with open(path, "w", encoding="utf-8") as f:
+            f.write(ET.tostring(root, encoding="unicode"))
+        try:
+            rep = script_reports(path)
+        except Exception as e:
+            ctx.violation("validate-schema-script-raised", {"schema": name, "seed": label}, f"{type(e).__name__}: {e}"[:300])
+            return
+        ctx.case((name, "script", json.dumps(label, sort_keys=True)), nontrivial=bool(expect_codes))
+        ctx.count(f"script-route:{label['k'] if isinstance(label, dict) else label}:{'must-report' if expect_codes else 'must-pass'}")
+        reported = bool(rep)
+        if reported != bool(expect_codes):
+            ctx.violation("validate-schema-script-disagrees-with-check-compliance", {"schema": name, "seed": label},
+                          {"check_compliance_codes": sorted(set(expect_codes))[:4], "script_report": (rep or ["(went on to the save/reload stage)"])[0][:200]})
+        elif reported and not any(c in rep[0] for c in expect_codes):
+            ctx.violation("validate-schema-script-report-lacks-the-code", {"schema": name, "seed": label},
+                          {"expected_one_of": sorted(set(expect_codes))[:4], "script_report": rep[0][:300]})
+    run("released", [i[0] for i in base_on if i[0] != "SCHEMA_PRERELEASE_VERSION_USED"])
+    done = set()
+    for sd, mres in zip(seeds, answers):
+        k = sd["k"]
+        if k in done or k not in SPEC_CODE or not mres.get("adm"):
+            continue
+        done.add(k)
+        undo = seed_xml(root, sd, els)
+        try:
+            run({kk: vv for kk, vv in sd.items() if kk != "e"}, [SPEC_CODE[k]])
+        finally:
+            undo()
+    try:
+        os.remove(path)
+    except OSError:
+        pass
+
+
 def run_schema(ctx, sess, name, seeded, n, full, per=None, controls=True, sweep=False):
     from hed.schema.hed_schema_entry import pluralize
     root = ET.parse(schema_xml.bundled()[name]).getroot()
@@ -1049,6 +1112,7 @@ def run_schema(ctx, sess, name, seeded, n, full, per=None, controls=True, sweep=
         else:
             compare_case(ctx, name, sd, mres, root, els, ans["gen83"])
         ctx.check_time()
+    script_route(ctx, name, root, els, seeds, ans["seeds"], on, sess.dir)
     return ms, env
 
 
@@ -1126,6 +1190,10 @@ def run(ctx):
                      "each, plus one declared control per attribute, packed one seeded attribute per entry and load; quick: 8.2.0 "
                      "and 8.3.0, thorough: all nine schemas; pairs whose own checker raises on that entry class (class attributes "
                      "on non-tags, defaultUnits outside unit classes) are only compared for 'both raise'; histogram undeclared-sweep:*")
+    ctx.notes.append("script route (anchors hed/scripts/validate_schemas.py, script_util.py): validate_schema(path) is run on a temp "
+                     "copy of every released schema and, per seeded schema, on one admissible fault of each of the ten kinds; it must "
+                     "stop at its compliance stage with a report naming the fault's code exactly when check_compliance (warnings on, "
+                     "prerelease notice aside) reports something; the save/reload round trips after that stage are stubbed out (C05)")
     ctx.notes.append("hed cache = scratch folder pre-populated from the bundled schema_data (offline)")
     full = not ctx.quick()
     n = 2 if ctx.quick() else 30
@@ -1163,6 +1231,12 @@ def replay(ctx, rec):
         ms = read_model_schema(root, pluralize.plural)
         env = read_env(sess.dir, ms, all_text(ms))
         sd = case.get("seed")
+        if str(rec.get("clause", "")).startswith("validate-schema-script"):
+            seeds = [sd] if isinstance(sd, dict) else []
+            ans = mbatch(ctx, [{"op": "c14.run", "schema": ms, "env": env, "seeds": [wire(x) for x in seeds]}])[0]
+            script_route(ctx, name, root, elements(root), seeds, ans["seeds"], impl_obs(impl_load(root), True), sess.dir)
+            print("script route re-run:", len(ctx.violations), "violation(s)", [v["detail"] for v in ctx.violations][:2])
+            return
         ans = mbatch(ctx, [{"op": "c14.run", "schema": ms, "env": env, "seeds": [wire(sd)] if sd else []}])[0]
         if not sd:
             sch = impl_load(root)
